@@ -448,7 +448,9 @@ func (m *memImporter) Import(ctx context.Context, name string) (*object.Module, 
 
 type step struct {
 	Kind string `json:"kind"` // top | hostcall | hostclone
-	Ctx  int    `json:"ctx"`  // 0: bare context, k: recording OS k placed in the context
+	// 0: bare context, k: recording OS k placed in the context; several decimal digits = a LAYERED context, the first
+	// digit placed first: 12 = ros.WithOS(ros.WithOS(context.Background(), os1), os2)
+	Ctx int `json:"ctx"`
 }
 
 type caseSpec struct {
@@ -542,8 +544,10 @@ func runCase(c caseSpec, sent *sentinels) (obs caseObs) {
 	}
 	mkctx := func(k int) context.Context {
 		ctx := context.Background()
-		if k != 0 {
-			ctx = ros.WithOS(ctx, oses[k])
+		for _, d := range fmt.Sprint(k) {
+			if d != '0' {
+				ctx = ros.WithOS(ctx, oses[int(d-'0')])
+			}
 		}
 		return ctx
 	}
@@ -558,6 +562,37 @@ func runCase(c caseSpec, sent *sentinels) (obs caseObs) {
 		obs.Real = sent.check()
 	}()
 	opts := []risor.Option{risor.WithConcurrency()}
+	// c12nest(src, layer, withos): a HOST builtin that starts a nested evaluation the way an embedding application does -
+	// on the context it was called with (cancellation etc. are inherited), layered with an OS of its own when layer != 0
+	// (ros.WithOS(ctx, os<layer>)), and with the option risor.WithOS(os<withos>) when withos != 0.  The nested script has
+	// the same importer and the same host builtin (nesting to any depth).
+	var nestOpts []risor.Option
+	var nest *object.Builtin
+	nest = object.NewBuiltin("c12nest", func(ctx context.Context, args ...object.Object) object.Object {
+		if len(args) != 3 {
+			return object.NewError(errors.New("c12nest(src, layer, withos)"))
+		}
+		src, e1 := object.AsString(args[0])
+		layer, e2 := object.AsInt(args[1])
+		wo, e3 := object.AsInt(args[2])
+		if e1 != nil || e2 != nil || e3 != nil {
+			return object.NewError(errors.New("c12nest: bad arguments"))
+		}
+		nctx := ctx
+		if layer != 0 {
+			nctx = ros.WithOS(ctx, oses[int(layer)])
+		}
+		o := append([]risor.Option{}, nestOpts...)
+		if wo != 0 {
+			o = append(o, risor.WithOS(oses[int(wo)]))
+		}
+		res, err := risor.Eval(nctx, src, o...)
+		if err != nil {
+			return object.NewError(err)
+		}
+		return res
+	})
+	opts = append(opts, risor.WithGlobal("c12nest", nest))
 	if c.WithOS == 9 {
 		// risor's own VirtualOS with nothing mounted and no user configured: whatever it answers must come from this
 		// configuration, never from the real host
@@ -572,6 +607,7 @@ func runCase(c caseSpec, sent *sentinels) (obs caseObs) {
 	cfg0 := risor.NewConfig(opts...)
 	imp := &memImporter{sources: c.Modules, globals: cfg0.GlobalNames()}
 	opts = append(opts, risor.WithImporter(imp))
+	nestOpts = []risor.Option{risor.WithConcurrency(), risor.WithGlobal("c12nest", nest), risor.WithImporter(imp)}
 	cfg := risor.NewConfig(opts...)
 	if len(c.Steps) == 0 {
 		obs.Err = "no steps"
